@@ -20,14 +20,14 @@ PID = 'C08'
 MOD = 'checks.c08'
 
 
-def _hazard_witness(sp, hz, rng, timeout_ms=20000):
+def _hazard_witness(sp, hz, rng, timeout_ms=20000, target_terms=None, goal_of=None):
   """Solver query: is there a point of the admissible box at which the hazardous operand leaves its domain
   (denominator = 0, log/rsqrt/pow argument <= 0, sqrt argument < 0)?  Atom variables met in the operand are tied to
   their definitions (sqrt: a >= 0 and a^2 = arg; recip: a * arg = 1; abs / relu by cases).  Returns
   (verdict, x) with x a completed point of the space or None."""
   import z3
   from dverif import smt
-  atom = hz.atom
+  atom = hz.atom if target_terms is None else dict(cols=target_terms[0], vals=target_terms[1])
   lo = np.asarray(sp.lo); hi = np.asarray(sp.hi)
   atom_by_var = {a['var']: a for a in sp.atoms}
   zv = {}
@@ -55,8 +55,11 @@ def _hazard_witness(sp, hz, rng, timeout_ms=20000):
       e = e + t
     return e
   target = poly(atom['cols'], atom['vals'])
-  kind = hz.obligation['kind']
-  goal = {'nonzero': target == 0, 'positive': target <= 0, 'nonneg': target <= 0}[kind]   # derivative programs: sqrt is not differentiable at 0 either
+  if goal_of is not None:
+    goal = goal_of(target)
+  else:
+    kind = hz.obligation['kind']
+    goal = {'nonzero': target == 0, 'positive': target <= 0, 'nonneg': target <= 0}[kind]   # derivative programs: sqrt is not differentiable at 0 either
   done = set()
   while pending:
     a = pending.pop()
@@ -109,6 +112,66 @@ def _replay_derivatives(ctx, f, xs, vs, pt):
   return x, v, [k for k, b in bad.items() if b]
 
 
+def _central_difference(f, x, v, h):
+  xp = [jnp.asarray(a + h * t) for a, t in zip(x, v)]; xm = [jnp.asarray(a - h * t) for a, t in zip(x, v)]
+  return [(np.asarray(p) - np.asarray(m)) / (2 * h) for p, m in zip(jtu.tree_leaves(f(*xp)), jtu.tree_leaves(f(*xm)))]
+
+
+def _jvp_vs_central_difference(f, x, v):
+  """Real jax.jvp against central differences of the real primal with two step sizes; returns (mismatch, detail).  A mismatch is
+  only reported when both step sizes disagree with the jvp by more than 1e-3 of the derivative scale while agreeing with each other."""
+  scale = max(1.0, max(float(np.max(np.abs(a))) if a.size else 0.0 for a in x))
+  jv = [np.asarray(l) for l in jtu.tree_leaves(jax.jvp(f, tuple(map(jnp.asarray, x)), tuple(map(jnp.asarray, v)))[1])]
+  fd1 = _central_difference(f, x, v, 1e-4 * scale); fd2 = _central_difference(f, x, v, 1e-6 * scale)
+  mag = max(1e-6, max(float(np.max(np.abs(a))) if a.size else 0.0 for a in jv + fd1))
+  worst = None
+  for i, (j, a, b) in enumerate(zip(jv, fd1, fd2)):
+    if not j.size:
+      continue
+    e1 = np.abs(j - a); e2 = np.abs(j - b); c = np.abs(a - b)
+    bad = (e1 > 1e-3 * mag) & (e2 > 1e-3 * mag) & (c < 1e-4 * mag)
+    if bad.any():
+      k = int(np.argmax(np.where(bad, e1, 0)))
+      if worst is None or e1.reshape(-1)[k] > worst[0]:
+        worst = (float(e1.reshape(-1)[k]), i, k, float(j.reshape(-1)[k]), float(a.reshape(-1)[k]))
+  if worst is None:
+    return False, None
+  return True, dict(output=worst[1], index=worst[2], jvp=worst[3], central_difference=worst[4], scale=mag)
+
+
+def _switch_probe(ctx, name, f, uc, conf):
+  """A comparison on data that interval arithmetic does not decide (a switch inside the admissible box) in a program whose derivative is being
+  checked: the solver is asked for admissible states on each side of and on the switching surface (QF_NRA over the operand difference, atoms tied
+  to their definitions); at each the REAL jax.jvp is compared with central differences of the REAL primal.  Returns True when a violation was
+  recorded; otherwise the caller re-raises (inconclusive: this domain cannot follow the switch)."""
+  sp = uc.sp
+  cname = f'{name}.jvp_matches_central_difference_at_a_switch'
+  tried = 0
+  for k in [int(i) for i in uc.und[:3]]:
+    cols, vals = uc.diff.row_terms(k)
+    for side, goal in (('negative', lambda t: t < 0), ('zero', lambda t: t == 0), ('positive', lambda t: t > 0)):
+      verdict, pt = _hazard_witness(sp, None, ctx.rng, target_terms=(cols, vals), goal_of=goal)
+      tried += 1
+      if verdict != 'sat':
+        continue
+      with np.errstate(all='ignore'):
+        x = [np.nan_to_num(np.asarray(a.evaluate(pt)), nan=0.0) for a in uc.xs]
+        v = [np.asarray(a.evaluate(sp.complete_point(sp.random_point(ctx.rng)))) for a in uc.vs]
+      try:
+        bad, det = _jvp_vs_central_difference(f, x, v)
+      except Exception as e:  # noqa: BLE001
+        ctx.error(cname, f'replay at a switch witness failed: {type(e).__name__}: {e}')
+        continue
+      if bad:
+        ctx.violation(cname, dict(config=conf, kind='switch-derivative', side=side, comparison=uc.cmp_name),
+                      dict(inputs=[a.tolist() for a in x], tangent=[a.tolist() for a in v], detail=det),
+                      f'{name}: a {uc.cmp_name} comparison on data switches inside the admissible box; at a state where its operand difference is {side} '
+                      f'the real jax.jvp gives {det["jvp"]:.6g} but central differences of the real primal give {det["central_difference"]:.6g} (output {det["output"]}, index {det["index"]})')
+        ctx.clause(cname, 'failed', config=dict(conf, side=side), queries=tried)
+        return True
+  return False
+
+
 def _check_derivatives(ctx, name, f, xs_builder, conf, bits=8, exact_derivative=True, scale_floor=1.0, adjoint_bits=None):
   """f: flat arrays -> tuple of arrays.  Builds x, v (tangent), w (cotangent) symbolic and decides
      (a) jvp(f)(x)[v] == d/d eps P_f(x + eps v)  (P_f = polynomial normal form of the primal),
@@ -116,10 +179,18 @@ def _check_derivatives(ctx, name, f, xs_builder, conf, bits=8, exact_derivative=
      (c) finiteness: no non-finite constant / undefined operation is reached in the derivative programs.  An operation whose
          operand range (interval arithmetic over the box) touches the edge of its domain raises a DefinednessHazard at once;
          the solver is asked for an admissible state on that edge, and the REAL jax.jvp / jax.vjp are replayed there."""
-  from dverif.jsym import NonFiniteConstant
+  from dverif.jsym import NonFiniteConstant, UndecidedComparison
   from dverif.poly import DefinednessHazard
   cleared = set()
   fname = f'{name}.derivatives_finite_on_admissible_states'
+  if ctx.replay is not None and ctx.replay.get('clause') == f'{name}.jvp_matches_central_difference_at_a_switch':
+    rp = ctx.replay
+    x = [np.asarray(a, float) for a in rp['inputs']]; v = [np.asarray(a, float) for a in rp['tangent']]
+    bad, det = _jvp_vs_central_difference(f, x, v)
+    print(f'REPLAY {rp["clause"]}: real jax.jvp vs central differences of the real primal at the recorded state: {"MISMATCH " + str(det) if bad else "agree"}')
+    if bad:
+      ctx.res['violations'].append(dict(clause=rp['clause'], signature=rp.get('signature'), replay=os.environ.get('DVERIF_REPLAY'), message='replayed'))
+    return None
   if ctx.replay is not None:
     rp = ctx.replay
     if rp.get('clause') == fname and 'tangent' in rp:
@@ -157,6 +228,10 @@ def _check_derivatives(ctx, name, f, xs_builder, conf, bits=8, exact_derivative=
       cleared.add(hz.obligation['hkey'])            # the real derivatives are finite there (guarded): continue
       ctx.clause(fname + '.hazard', 'discharged', config=dict(conf, hazard=ob, verdict='sat witness replays finite (guarded operation)'), queries=1)
       continue
+    except UndecidedComparison as uc:
+      if getattr(uc, 'sp', None) is not None and _switch_probe(ctx, name, f, uc, conf):
+        return None
+      raise
     except NonFiniteConstant as e_:
       e = e_
       break
@@ -179,6 +254,7 @@ def _check_derivatives(ctx, name, f, xs_builder, conf, bits=8, exact_derivative=
 
 def _check_derivatives_inner(ctx, name, f, xs_builder, conf, bits, exact_derivative, scale_floor, cleared=None, adjoint_bits=None):
   from dverif.poly import DefinednessHazard
+  from dverif.jsym import UndecidedComparison
   sp = Space(bits=bits)
   sp.eager_obligations = True
   sp.cleared_obligations = cleared if cleared is not None else set()
@@ -189,7 +265,7 @@ def _check_derivatives_inner(ctx, name, f, xs_builder, conf, bits, exact_derivat
     if adjoint_bits is None:
       return _check_derivatives_body(ctx, name, f, sp, xs, vs, conf, exact_derivative, scale_floor)
     _check_derivatives_body(ctx, name, f, sp, xs, vs, conf, exact_derivative, scale_floor, parts='a')
-  except DefinednessHazard as hz:
+  except (DefinednessHazard, UndecidedComparison) as hz:
     hz.sp, hz.xs, hz.vs = sp, xs, vs
     raise
   # adjoint clause in its own space (lower monomial degree: reciprocals of squared denominators stay separate atoms there)
@@ -200,7 +276,7 @@ def _check_derivatives_inner(ctx, name, f, xs_builder, conf, bits, exact_derivat
   xs2 = xs_builder(sp2, ''); vs2 = xs_builder(sp2, 'v_')
   try:
     return _check_derivatives_body(ctx, name, f, sp2, xs2, vs2, conf, False, scale_floor, parts='bc')
-  except DefinednessHazard as hz:
+  except (DefinednessHazard, UndecidedComparison) as hz:
     hz.sp, hz.xs, hz.vs = sp2, xs2, vs2
     raise
 
